@@ -1563,6 +1563,13 @@ post_t * instance_t::parse_post(char *          line,
     if (! post->amount.is_null() && post->amount.has_commodity()) {
       context.journal->register_commodity(post->amount.commodity(), post.get());
 
+      // The commodity a lot price is given in is used by this journal as
+      // well, and --strict/--pedantic ask for it to be declared too
+      if (post->amount.has_annotation() && post->amount.annotation().price &&
+          post->amount.annotation().price->has_commodity())
+        context.journal->register_commodity
+          (post->amount.annotation().price->commodity(), post.get());
+
       if (! post->amount.has_annotation()) {
         std::vector<fixed_rate_t> rates;
         get_applications<fixed_rate_t>(rates);
@@ -1627,6 +1634,12 @@ post_t * instance_t::parse_post(char *          line,
           else
             parse_amount_expr(cstream, *context.scope, *post.get(), *post->cost,
                               PARSE_NO_MIGRATE | PARSE_SINGLE | PARSE_NO_ASSIGN);
+
+          // The commodity of the cost is subject to --strict/--pedantic
+          // just like the commodity of the amount
+          if (post->cost->has_commodity())
+            context.journal->register_commodity(post->cost->commodity(),
+                                                post.get());
 
           if (post->cost->sign() < 0)
             throw parse_error(_("A posting's cost may not be negative"));
